@@ -47,6 +47,41 @@ MUTANTS = [
     m('C14-check-noorder', 'C14', 'src/pytezos/michelson/types/set.py', "        assert items == sorted(items), f'set elements are not sorted'\n", "", 'rejects unsorted'),
     m('C14-inplace', 'C14', 'src/pytezos/michelson/types/set.py', "            items = [item] + self.items\n            return type(self)(sorted(items))", "            self.items.append(item)\n            return type(self)(sorted(self.items))", '.append()'),
     m('C14-mem-get', 'C14', 'src/pytezos/michelson/instructions/struct.py', "res = BoolType.from_value(src.contains(key))", "res = BoolType.from_value(src.get(key) is not None)", 'MemInstruction'),
+    # ---- C32
+    m('C32-len32', 'C32', 'src/pytezos/michelson/sections/view.py', "if len(name) >= 32:", "if len(name) > 32:", 'length bounded by 31'),
+    m('C32-charset-space', 'C32', 'src/pytezos/michelson/sections/view.py', "r'[a-zA-Z0-9_.%@]*'", "r'[a-zA-Z0-9_.%@ ]*'", 'name characters'),
+    m('C32-charset-match', 'C32', 'src/pytezos/michelson/sections/view.py', "re.fullmatch(r'[a-zA-Z0-9_.%@]*', name)", "re.match(r'[a-zA-Z0-9_.%@]*', name)", 'name characters'),
+    m('C32-self-in-lambda', 'C32', 'src/pytezos/michelson/sections/view.py', "        if code.prim == 'SELF':", "        if code.prim == 'SELF' and not lambda_:", 'SELF inside LAMBDA'),
+    m('C32-no-lambda-rec', 'C32', 'src/pytezos/michelson/sections/view.py', "('LAMBDA', 'LAMBDA_REC', 'lambda')", "('LAMBDA', 'lambda')", 'LAMBDA_REC'),
+    m('C32-restricted-set', 'C32', 'src/pytezos/michelson/sections/view.py', "('CREATE_CONTRACT', 'SET_DELEGATE', 'TRANSFER_TOKENS')", "('CREATE_CONTRACT', 'TRANSFER_TOKENS')", 'SET_DELEGATE'),
+    m('C32-first-arg-only', 'C32', 'src/pytezos/michelson/sections/view.py', "        for arg in args:\n            ViewSection.check_code(arg, lambda_ or push_lambda)", "        for arg in args[:1]:\n            ViewSection.check_code(arg, lambda_ or push_lambda)", 'check_code'),
+    m('C32-push-any', 'C32', 'src/pytezos/michelson/sections/view.py', "getattr(args[0], 'prim', None) == 'lambda'", "getattr(args[0], 'prim', None) is not None", 'PUSH of another type'),
+    # ---- C33
+    m('C33-no-list', 'C33', 'src/pytezos/context/impl.py', "            elif isinstance(node, list):\n                return list(map(_resolve, node))\n", "", 'inside a sequence'),
+    m('C33-annots-lost', 'C33', 'src/pytezos/context/impl.py', "return {k: v if k != 'args' else args for k, v in node.items()}", "return {'prim': node['prim'], 'args': args}", 'reference as first argument'),
+    m('C33-silent-unknown', 'C33', 'src/pytezos/context/impl.py', "            if constant_hash not in self.global_constants:\n                raise KeyError(f'Constant {constant_hash} is not defined')\n", "            if constant_hash not in self.global_constants:\n                return node\n", 'unknown hash'),
+    m('C33-no-recursion', 'C33', 'src/pytezos/context/impl.py', "return _resolve(self.global_constants[constant_hash])", "return self.global_constants[constant_hash]", 'refers to another constant'),
+    m('C33-first-arg', 'C33', 'src/pytezos/context/impl.py', "args = list(map(_resolve, node['args']))", "args = [_resolve(node['args'][0])] + node['args'][1:]", 'last argument'),
+    m('C33-packed-key', 'C33', 'src/pytezos/context/impl.py', "constant_hash = forge_script_expr(forge_micheline(expression))", "constant_hash = forge_script_expr(b'\\x05' + forge_micheline(expression))", 'keyed by'),
+    # ---- C29
+    m('C29-arity', 'C29', 'src/pytezos/rpc/search.py', "logger.debug('%s at head %s', succ_value, head)", "logger.debug('%s at head %s' % succ_value, head)", 'R-FMT'),
+    m('C29-arity2', 'C29', 'src/pytezos/rpc/search.py', "logger.debug('%s -> %s at %s', last_value, value, level)", "logger.debug('%s -> %s at %s', last_value, value)", 'R-FMT'),
+    m('C29-no-tail', 'C29', 'src/pytezos/rpc/search.py', "    if succ_level > last:\n", "    if succ_level > last + step:\n", 'coverage and intervals'),
+    m('C29-interval-bounds', 'C29', 'src/pytezos/rpc/search.py', "            yield level + step, succ_value, level, value\n", "            yield level + step, value, level, succ_value\n", ''),
+    m('C29-no-update', 'C29', 'src/pytezos/rpc/search.py', "            yield level + step, succ_value, level, value\n            succ_value = value\n", "            yield level + step, succ_value, level, value\n", 'coverage and intervals'),
+    m('C29-bisect-flip', 'C29', 'src/pytezos/rpc/search.py', "        if equals(value, pred_value):\n            return bisect(level, end)\n        else:\n            return bisect(start, level)", "        if equals(value, pred_value):\n            return bisect(start, level)\n        else:\n            return bisect(level, end)", 'bisection invariant'),
+    m('C29-bisect-end', 'C29', 'src/pytezos/rpc/search.py', "        if end == start + 1:\n            return end, get(end)", "        if end == start + 1:\n            return start, get(start)", 'bisection invariant'),
+    m('C29-walk-restart', 'C29', 'src/pytezos/rpc/search.py', "level, value = find_state_change(head, level, get, equals, pred_value=value)", "level, value = find_state_change(head, last, get, equals, pred_value=value)", 'chained'),
+    m('C29-walk-bounds', 'C29', 'src/pytezos/rpc/search.py', "            int_head,\n            int_tail,\n            get,", "            int_tail,\n            int_head,\n            get,", 'own bounds'),
+    # ---- C31
+    m('C31-order', 'C31', 'src/pytezos/crypto/hash.py', "return blake2b(left + right, digest_size=32).digest()", "return blake2b(right + left, digest_size=32).digest()", '_hash_tuple'),
+    m('C31-digest', 'C31', 'src/pytezos/crypto/hash.py', "return blake2b(left + right, digest_size=32).digest()", "return blake2b(left + right, digest_size=64).digest()", '_hash_tuple'),
+    m('C31-pad-first', 'C31', 'src/pytezos/crypto/hash.py', "a = res + [res[-1]]", "a = res + [res[0]]", 'Merkle root of'),
+    m('C31-step-index', 'C31', 'src/pytezos/crypto/hash.py', "        a[m] = _hash_tuple(a[n], a[n])", "        a[m] = _hash_tuple(a[n - 1], a[n])", 'Merkle root of'),
+    m('C31-step-odd', 'C31', 'src/pytezos/crypto/hash.py', "            a[m + 1] = a[m]\n            return step(m + 1)", "            return step(m + 1)", 'Merkle root of'),
+    m('C31-round-le', 'C31', 'src/pytezos/crypto/hash.py', "payload_round.to_bytes(4, 'big')", "payload_round.to_bytes(4, 'little')", 'block_payload_hash'),
+    m('C31-single', 'C31', 'src/pytezos/crypto/hash.py', "    elif len(hashes) == 1:\n        return _hash_tuple(hashes[0])", "    elif len(hashes) == 1:\n        return hashes[0]", 'Merkle root of 1'),
+    m('C31-prefix', 'C31', 'src/pytezos/crypto/hash.py', "return base58_encode(res, b'LLo').decode()", "return base58_encode(res, b'Lo').decode()", 'operation_list_list_hash'),
     # ---- C05
     m('C05-tag-swap', 'C05', F_TAGS, "'DUG': b'\\x71',", "'DUG': b'\\x70',", 'prim_tags[DUG]'),
     m('C05-filler-2args', 'C05', F_FORGE, "elif args_len >= 3:\n                res.append(b'\\x00' * 4)", "elif args_len >= 2:\n                res.append(b'\\x00' * 4)", 'shape prim2a0'),
